@@ -26,6 +26,16 @@ func ZZExprs(level int) []string {
 		"ba*a", "x(?:ab)+ab", "0x0*0", "xa(?:ab)*b", "aa*", "(?:ab)*b", "a(?:ba)*ba", "(?:a|ba)*a",
 		"(?i)k", "(?i)s", "[^\\n]a", "(?s:.)a", "..", "a.b", "a.?b", ".+b", "b.+", "(?:.*a)b", "a(?:b*)c", "(a|b)(a|b)",
 	}
+	// an alternation that is reached over several paths (after another
+	// alternation, an optional part or a loop), the paths ending in different
+	// or in equal literals: the suffix found behind the join must hold for
+	// every path into it
+	for _, x := range []string{"ab|cd", "ab|cb", "a|b", "ba|c", "foo|bar"} {
+		for _, y := range []string{"a?", "b?", "o?", "(?:ab)?", "(?:|a)", "(?:|ca)", "(?:a|)", "(?:a|ba)", "b*"} {
+			core = append(core, "(?:"+x+")"+y)
+		}
+	}
+	core = append(core, "a?(?:b|cb)", "(?:ab)?(?:b|ab)", "a*(?:|a)", "(?:a|b)(?:a|b)(?:|a)", "(?:a|bb){3}", "(?:a|ba)?(?:a|b)?a")
 	if level == 0 {
 		return core
 	}
